@@ -73,6 +73,7 @@ pub proof fn axiom_vec_node_len<T>(v: &Vec<Node<T>>)
 }
 
 pub proof fn lemma_id_eq(a: NodeId, b: NodeId)
+    // @props C05
     requires
         a.idx() == b.idx(),
         a.stamp == b.stamp,
@@ -327,6 +328,7 @@ pub open spec fn payload_frame<T>(o: Seq<Node<T>>, n: Seq<Node<T>>) -> bool {
 }
 
 pub proof fn lemma_payload_frame_wf<T>(o: Seq<Node<T>>, n: Seq<Node<T>>, first: Option<usize>, last: Option<usize>)
+    // @props C07 C08
     requires
         payload_frame(o, n),
     ensures
@@ -362,10 +364,19 @@ pub assume_specification[ <NodeStamp as Default>::default ]() -> (r: NodeStamp)
 ;
 
 pub proof fn lemma_empty_wf<T>()
+    // @props C13 C01
     ensures
-        forall|a: Arena<T>| a.nodes@.len() == 0 && a.first_free_slot is None && a.last_free_slot is None ==> #[trigger] a.wf(),
+        forall|a: Arena<T>|
+            #![trigger a.wf()]
+            #![trigger a.acyclic()]
+            #![trigger a.fl_ok()]
+            a.nodes@.len() == 0 && a.first_free_slot is None && a.last_free_slot is None ==> a.wf() && a.acyclic() && a.fl_ok(),
 {
-    assert forall|a: Arena<T>| a.nodes@.len() == 0 && a.first_free_slot is None && a.last_free_slot is None implies #[trigger] a.wf() by {
+    assert forall|a: Arena<T>|
+        #![trigger a.wf()]
+        #![trigger a.acyclic()]
+        #![trigger a.fl_ok()]
+        a.nodes@.len() == 0 && a.first_free_slot is None && a.last_free_slot is None implies a.wf() && a.acyclic() && a.fl_ok() by {
         let w = Ranks { depth: |i: int| 0nat, rem: |i: int| 0nat, pos: |i: int| 0nat, bound: 0 };
         assert(ranked(a.nodes@, w));
         let fl = Seq::<int>::empty();
@@ -376,6 +387,7 @@ pub proof fn lemma_empty_wf<T>()
 
 /// what the exec code may read off the head and tail of the free list
 pub proof fn lemma_fl_ends<T>(s: Seq<Node<T>>, first: Option<usize>, last: Option<usize>, fl: Seq<int>)
+    // @props C07
     requires
         free_list(s, first, last, fl),
     ensures
@@ -397,6 +409,7 @@ pub proof fn lemma_fl_ends<T>(s: Seq<Node<T>>, first: Option<usize>, last: Optio
 
 /// popping the head of the free list (the nodes are untouched)
 pub proof fn lemma_fl_pop<T>(s: Seq<Node<T>>, first: Option<usize>, last: Option<usize>, fl: Seq<int>, nfirst: Option<usize>, nlast: Option<usize>)
+    // @props C07
     requires
         free_list(s, first, last, fl),
         fl.len() > 0,
@@ -442,6 +455,7 @@ pub proof fn lemma_fl_pop<T>(s: Seq<Node<T>>, first: Option<usize>, last: Option
 
 /// pushing slot `x` (live in `o`, removed and reuseable in `n`) at the tail of the free list
 pub proof fn lemma_fl_push<T>(o: Seq<Node<T>>, n: Seq<Node<T>>, first: Option<usize>, last: Option<usize>, fl: Seq<int>, x: int, nfirst: Option<usize>, nlast: Option<usize>)
+    // @props C07
     requires
         free_list(o, first, last, fl),
         0 <= x < o.len(),
@@ -506,6 +520,7 @@ pub proof fn lemma_fl_push<T>(o: Seq<Node<T>>, n: Seq<Node<T>>, first: Option<us
 
 /// the free list is untouched by freeing a slot whose generation counter is exhausted
 pub proof fn lemma_fl_retire<T>(o: Seq<Node<T>>, n: Seq<Node<T>>, first: Option<usize>, last: Option<usize>, fl: Seq<int>, x: int)
+    // @props C07
     requires
         free_list(o, first, last, fl),
         0 <= x < o.len(),
@@ -531,6 +546,7 @@ pub proof fn lemma_fl_retire<T>(o: Seq<Node<T>>, n: Seq<Node<T>>, first: Option<
 
 /// the popped slot becomes live again (recycled)
 pub proof fn lemma_fl_reuse<T>(o: Seq<Node<T>>, n: Seq<Node<T>>, first: Option<usize>, last: Option<usize>, fl: Seq<int>, x: int)
+    // @props C07
     requires
         free_list_popped(o, first, last, fl, x),
         n.len() == o.len(),
@@ -555,6 +571,7 @@ pub proof fn lemma_fl_reuse<T>(o: Seq<Node<T>>, n: Seq<Node<T>>, first: Option<u
 
 /// appending a fresh live slot does not disturb the free list
 pub proof fn lemma_fl_grow<T>(o: Seq<Node<T>>, n: Seq<Node<T>>, first: Option<usize>, last: Option<usize>, fl: Seq<int>)
+    // @props C07
     requires
         free_list(o, first, last, fl),
         n.len() == o.len() + 1,
@@ -576,6 +593,7 @@ pub proof fn lemma_fl_grow<T>(o: Seq<Node<T>>, n: Seq<Node<T>>, first: Option<us
 
 /// links, ranks and payload tags after a node has been allocated in slot `x`
 pub proof fn lemma_alloc_links<T>(o: Seq<Node<T>>, n: Seq<Node<T>>, x: int)
+    // @props C01 C07 C12
     requires
         links_ok(o),
         exists|w: Ranks| ranked(o, w),
@@ -615,6 +633,7 @@ pub proof fn lemma_alloc_links<T>(o: Seq<Node<T>>, n: Seq<Node<T>>, x: int)
 }
 
 pub proof fn lemma_fl_popped_slot<T>(s: Seq<Node<T>>, first: Option<usize>, last: Option<usize>, fl: Seq<int>, x: int)
+    // @props C07
     requires
         free_list_popped(s, first, last, fl, x),
     ensures
@@ -737,6 +756,7 @@ pub open spec fn reparent_post<T>(o: Seq<Node<T>>, n: Seq<Node<T>>, c: Seq<int>,
 }
 
 pub proof fn lemma_subrange_step(c: Seq<int>, k: int)
+    // @props C03
     requires
         0 <= k < c.len(),
     ensures
@@ -755,6 +775,7 @@ pub proof fn lemma_subrange_step(c: Seq<int>, k: int)
 }
 
 pub proof fn lemma_chain_prefix<T>(s: Seq<Node<T>>, f: int, c: Seq<int>, d: Seq<int>, n: int)
+    // @props C03
     requires
         is_chain(s, f, c),
         is_chain(s, f, d),
@@ -773,6 +794,7 @@ pub proof fn lemma_chain_prefix<T>(s: Seq<Node<T>>, f: int, c: Seq<int>, d: Seq<
 }
 
 pub proof fn lemma_chain_unique<T>(s: Seq<Node<T>>, f: int, c: Seq<int>)
+    // @props C03
     requires
         is_chain(s, f, c),
     ensures
@@ -795,6 +817,7 @@ pub proof fn lemma_chain_unique<T>(s: Seq<Node<T>>, f: int, c: Seq<int>)
 // ---- consequences of well-formedness used by the exec proofs ---------------------------------
 /// a node that names a parent is on that parent's child list, so the parent has a first child
 pub proof fn lemma_parent_has_first<T>(s: Seq<Node<T>>, w: Ranks, y: int)
+    // @props C01
     requires
         links_ok(s),
         ranked(s, w),
@@ -816,6 +839,7 @@ pub proof fn lemma_parent_has_first<T>(s: Seq<Node<T>>, w: Ranks, y: int)
 }
 
 pub proof fn lemma_parent_has_last<T>(s: Seq<Node<T>>, w: Ranks, y: int)
+    // @props C01
     requires
         links_ok(s),
         ranked(s, w),
@@ -870,6 +894,7 @@ pub open spec fn detach_facts<T>(s: Seq<Node<T>>, f: int, l: int) -> bool {
 }
 
 pub proof fn lemma_detach_facts<T>(s: Seq<Node<T>>, w: Ranks, f: int, l: int)
+    // @props C05 C03
     requires
         links_ok(s),
         ranked(s, w),
@@ -952,6 +977,7 @@ pub open spec fn detach_post<T>(o: Seq<Node<T>>, n: Seq<Node<T>>, x: int) -> boo
 }
 
 pub proof fn lemma_neighbors_distinct<T>(s: Seq<Node<T>>, w: Ranks, x: int)
+    // @props C05 C02
     requires
         links_ok(s),
         ranked(s, w),
@@ -976,6 +1002,7 @@ pub proof fn lemma_neighbors_distinct<T>(s: Seq<Node<T>>, w: Ranks, x: int)
 #[verifier::spinoff_prover]
 #[verifier::rlimit(200)]
 pub proof fn lemma_detach_wf<T>(o: Seq<Node<T>>, n: Seq<Node<T>>, x: int, w: Ranks)
+    // @props C01 C02
     requires
         links_ok(o),
         ranked(o, w),
@@ -1024,6 +1051,7 @@ pub proof fn lemma_detach_wf<T>(o: Seq<Node<T>>, n: Seq<Node<T>>, x: int, w: Ran
 
 /// a pure relinking step keeps the payload-side invariants
 pub proof fn lemma_relink_wf<T>(o: Arena<T>, n: Arena<T>)
+    // @props C07 C08
     requires
         o.wf(),
         links_ok(n.nodes@),
@@ -1194,6 +1222,7 @@ pub open spec fn in_sub<T>(s: Seq<Node<T>>, w: Ranks, r: int, y: int) -> bool
 }
 
 pub proof fn lemma_gap_transplant_pre<T>(s: Seq<Node<T>>, w: Ranks, x: NodeId, parent: Option<NodeId>, prev: Option<NodeId>, next: Option<NodeId>)
+    // @props C05 C03
     requires
         links_ok(s),
         ranked(s, w),
@@ -1243,6 +1272,7 @@ pub proof fn lemma_gap_transplant_pre<T>(s: Seq<Node<T>>, w: Ranks, x: NodeId, p
 #[verifier::spinoff_prover]
 #[verifier::rlimit(200)]
 pub proof fn lemma_insert_links<T>(o: Seq<Node<T>>, n: Seq<Node<T>>, w: Ranks, x: NodeId, parent: Option<NodeId>, prev: Option<NodeId>, next: Option<NodeId>)
+    // @props C01 C03
     requires
         links_ok(o),
         ranked(o, w),
@@ -1306,6 +1336,7 @@ pub proof fn lemma_insert_links<T>(o: Seq<Node<T>>, n: Seq<Node<T>>, w: Ranks, x
 }
 
 pub proof fn lemma_insert_ranks<T>(o: Seq<Node<T>>, n: Seq<Node<T>>, w: Ranks, x: NodeId, parent: Option<NodeId>, prev: Option<NodeId>, next: Option<NodeId>)
+    // @props C02
     requires
         links_ok(o),
         ranked(o, w),
@@ -1368,6 +1399,7 @@ pub proof fn lemma_insert_ranks<T>(o: Seq<Node<T>>, n: Seq<Node<T>>, w: Ranks, x
 
 /// re-rank the subtree of the detached root x below p (needs: x is not an ancestor of p)
 pub proof fn lemma_shift_subtree<T>(s: Seq<Node<T>>, w: Ranks, x: int, p: int)
+    // @props C02 C05
     requires
         ranked(s, w),
         0 <= x < s.len(),
@@ -1406,6 +1438,7 @@ pub open spec fn anc<T>(s: Seq<Node<T>>, a: int, y: int) -> bool {
 }
 
 pub proof fn lemma_in_sub_indep<T>(s: Seq<Node<T>>, w1: Ranks, w2: Ranks, r: int, y: int)
+    // @props C05 C02
     requires
         ranked(s, w1),
         ranked(s, w2),
@@ -1421,6 +1454,7 @@ pub proof fn lemma_in_sub_indep<T>(s: Seq<Node<T>>, w1: Ranks, w2: Ranks, r: int
 }
 
 pub proof fn lemma_anc_iff<T>(s: Seq<Node<T>>, w: Ranks, a: int, y: int)
+    // @props C05 C02
     requires
         ranked(s, w),
     ensures
@@ -1434,6 +1468,7 @@ pub proof fn lemma_anc_iff<T>(s: Seq<Node<T>>, w: Ranks, a: int, y: int)
 
 /// cutting the parent link of r does not change who has r as an ancestor
 pub proof fn lemma_in_sub_frame<T>(o: Seq<Node<T>>, n: Seq<Node<T>>, w: Ranks, r: int, y: int)
+    // @props C05 C02
     requires
         n.len() == o.len(),
         forall|i: int| 0 <= i < o.len() && i != r ==> (#[trigger] n[i]).parent == o[i].parent,
@@ -1448,6 +1483,7 @@ pub proof fn lemma_in_sub_frame<T>(o: Seq<Node<T>>, n: Seq<Node<T>>, w: Ranks, r
 
 /// every link of a live node names a live node of the current generation
 pub proof fn lemma_links_live<T>(s: Seq<Node<T>>, i: int)
+    // @props C01 C12
     requires
         links_ok(s),
         0 <= i < s.len(),
@@ -1462,6 +1498,7 @@ pub proof fn lemma_links_live<T>(s: Seq<Node<T>>, i: int)
 
 /// the position "after the last child of p" is a gap
 pub proof fn lemma_gap_at_end<T>(s: Seq<Node<T>>, p: NodeId)
+    // @props C05 C03 C12
     requires
         links_ok(s),
         0 <= p.idx() < s.len(),
@@ -1508,6 +1545,7 @@ pub open spec fn anc_loop_measure(w: Ranks, cur: Option<NodeId>) -> nat {
 }
 
 pub proof fn lemma_anc_loop_step<T>(s: Seq<Node<T>>, w: Ranks, t: int, moved: NodeId, cur: NodeId)
+    // @props C02 C05
     requires
         links_ok(s),
         ranked(s, w),
@@ -1531,6 +1569,7 @@ pub proof fn lemma_anc_loop_step<T>(s: Seq<Node<T>>, w: Ranks, t: int, moved: No
 
 /// the positions "right after x" and "right before x" are gaps
 pub proof fn lemma_gap_around<T>(s: Seq<Node<T>>, w: Ranks, x: NodeId, r: int)
+    // @props C05 C03
     requires
         links_ok(s),
         ranked(s, w),
@@ -1580,6 +1619,7 @@ pub proof fn lemma_gap_around<T>(s: Seq<Node<T>>, w: Ranks, x: NodeId, r: int)
 
 /// a childless node is nobody's ancestor
 pub proof fn lemma_childless_not_anc<T>(s: Seq<Node<T>>, w: Ranks, x: int, y: int)
+    // @props C02 C05
     requires
         links_ok(s),
         ranked(s, w),
@@ -1630,6 +1670,7 @@ pub open spec fn chain_from<T>(s: Seq<Node<T>>, w: Ranks, i: int) -> Seq<int>
 }
 
 pub proof fn lemma_chain_from<T>(s: Seq<Node<T>>, w: Ranks, i: int)
+    // @props C01
     requires
         links_ok(s),
         ranked(s, w),
@@ -1692,6 +1733,7 @@ pub proof fn lemma_chain_from<T>(s: Seq<Node<T>>, w: Ranks, i: int)
 
 /// C01: the children of p are exactly the chain from p's first child, and it ends in p's last child
 pub proof fn lemma_children_chain<T>(s: Seq<Node<T>>, w: Ranks, p: int)
+    // @props C01 C04
     requires
         links_ok(s),
         ranked(s, w),
@@ -1727,6 +1769,7 @@ pub proof fn lemma_children_chain<T>(s: Seq<Node<T>>, w: Ranks, p: int)
 }
 
 pub proof fn lemma_child_on_chain<T>(s: Seq<Node<T>>, w: Ranks, p: int, i: int)
+    // @props C01 C04
     requires
         links_ok(s),
         ranked(s, w),
@@ -1766,6 +1809,7 @@ pub proof fn lemma_child_on_chain<T>(s: Seq<Node<T>>, w: Ranks, p: int, i: int)
 // ---- remove: the children of x take x's place (C04) ---------------------------------------------
 /// after `detach(x)` the place x occupied is a gap between its former neighbours
 pub proof fn lemma_gap_after_detach<T>(o: Seq<Node<T>>, n: Seq<Node<T>>, w: Ranks, x: int)
+    // @props C04 C05
     requires
         links_ok(o),
         ranked(o, w),
@@ -1846,6 +1890,7 @@ pub open spec fn splice_ctx<T>(s: Seq<Node<T>>, w: Ranks, x: int, fc: NodeId, lc
 
 #[verifier::rlimit(100)]
 pub proof fn lemma_splice_pre_s<T>(s: Seq<Node<T>>, w: Ranks, x: int, fc: NodeId, lc: NodeId, p: Option<NodeId>, a: Option<NodeId>, b: Option<NodeId>)
+    // @props C04 C05
     requires
         splice_ctx(s, w, x, fc, lc, p, a, b),
     ensures
@@ -1904,6 +1949,7 @@ pub proof fn lemma_splice_pre_s<T>(s: Seq<Node<T>>, w: Ranks, x: int, fc: NodeId
 }
 
 pub proof fn lemma_splice_pre<T>(s: Seq<Node<T>>, m: Seq<Node<T>>, w: Ranks, x: int, fc: NodeId, lc: NodeId, p: Option<NodeId>, a: Option<NodeId>, b: Option<NodeId>)
+    // @props C04 C05
     requires
         splice_ctx(s, w, x, fc, lc, p, a, b),
         detach_range_post(s, m, fc.idx(), lc.idx()),
@@ -1944,6 +1990,7 @@ pub proof fn lemma_splice_pre<T>(s: Seq<Node<T>>, m: Seq<Node<T>>, w: Ranks, x: 
 #[verifier::spinoff_prover]
 #[verifier::rlimit(300)]
 pub proof fn lemma_splice_links<T>(s: Seq<Node<T>>, n: Seq<Node<T>>, w: Ranks, x: int, fc: NodeId, lc: NodeId, p: Option<NodeId>, a: Option<NodeId>, b: Option<NodeId>)
+    // @props C01 C04
     requires
         splice_ctx(s, w, x, fc, lc, p, a, b),
         splice_post(s, n, x, chain_from(s, w, fc.idx()), fc, lc, p, a, b),
@@ -2009,6 +2056,7 @@ pub proof fn lemma_splice_links<T>(s: Seq<Node<T>>, n: Seq<Node<T>>, w: Ranks, x
 
 #[verifier::spinoff_prover]
 pub proof fn lemma_splice_ranks<T>(s: Seq<Node<T>>, n: Seq<Node<T>>, w: Ranks, x: int, fc: NodeId, lc: NodeId, p: Option<NodeId>, a: Option<NodeId>, b: Option<NodeId>)
+    // @props C02 C04
     requires
         splice_ctx(s, w, x, fc, lc, p, a, b),
         splice_post(s, n, x, chain_from(s, w, fc.idx()), fc, lc, p, a, b),
@@ -2088,6 +2136,7 @@ pub proof fn lemma_splice_ranks<T>(s: Seq<Node<T>>, n: Seq<Node<T>>, w: Ranks, x
 // ---- freeing an unlinked node (C04, C12) ------------------------------------------------------
 /// nobody names a node that has no links (needs the ranks for the parent links of would-be children)
 pub proof fn lemma_unreferenced<T>(s: Seq<Node<T>>, w: Ranks, x: int)
+    // @props C12 C01
     requires
         links_ok(s),
         ranked(s, w),
@@ -2111,6 +2160,7 @@ pub proof fn lemma_unreferenced<T>(s: Seq<Node<T>>, w: Ranks, x: int)
 }
 
 pub proof fn lemma_free_links<T>(o: Seq<Node<T>>, n: Seq<Node<T>>, w: Ranks, x: int)
+    // @props C12 C01 C02
     requires
         links_ok(o),
         ranked(o, w),
@@ -2208,6 +2258,7 @@ pub open spec fn remove_post<T>(o: Seq<Node<T>>, n: Seq<Node<T>>, x: int) -> boo
 
 /// what the four debug assertions at the start of `remove` check
 pub proof fn lemma_remove_entry<T>(s: Seq<Node<T>>, x: NodeId)
+    // @props C05
     requires
         links_ok(s),
         0 <= x.idx() < s.len(),
@@ -2255,6 +2306,7 @@ pub proof fn lemma_remove_entry<T>(s: Seq<Node<T>>, x: NodeId)
 }
 
 pub proof fn lemma_compose_splice<T>(s1: Seq<Node<T>>, s2: Seq<Node<T>>, s3: Seq<Node<T>>, w: Ranks, x: int, fc: NodeId, lc: NodeId, p: Option<NodeId>, a: Option<NodeId>, b: Option<NodeId>)
+    // @props C04
     requires
         splice_ctx(s1, w, x, fc, lc, p, a, b),
         detach_range_post(s1, s2, fc.idx(), lc.idx()),
@@ -2273,6 +2325,7 @@ pub proof fn lemma_compose_splice<T>(s1: Seq<Node<T>>, s2: Seq<Node<T>>, s3: Seq
 
 /// C04 assembled: detach x, splice its children into the gap, free x
 pub proof fn lemma_remove_compose<T>(s0: Seq<Node<T>>, s1: Seq<Node<T>>, s3: Seq<Node<T>>, s4: Seq<Node<T>>, w: Ranks, x: NodeId)
+    // @props C04
     requires
         links_ok(s0),
         ranked(s0, w),
@@ -2350,6 +2403,7 @@ pub proof fn lemma_remove_compose<T>(s0: Seq<Node<T>>, s1: Seq<Node<T>>, s3: Seq
 }
 
 pub proof fn lemma_remove_leaf_pointwise<T>(s0: Seq<Node<T>>, s1: Seq<Node<T>>, s4: Seq<Node<T>>, x: int)
+    // @props C04
     requires
         0 <= x < s0.len(),
         s0[x].first_child is None && s0[x].last_child is None,
@@ -2414,6 +2468,7 @@ pub proof fn lemma_remove_leaf_pointwise<T>(s0: Seq<Node<T>>, s1: Seq<Node<T>>, 
 
 /// the pointwise composition behind `lemma_remove_compose` (no well-formedness needed here)
 pub proof fn lemma_remove_pointwise<T>(s0: Seq<Node<T>>, s1: Seq<Node<T>>, s3: Seq<Node<T>>, s4: Seq<Node<T>>, x: int, c: Seq<int>, fc: NodeId, lc: NodeId, p: Option<NodeId>, a: Option<NodeId>, b: Option<NodeId>)
+    // @props C04
     requires
         0 <= x < s0.len(),
         p == s0[x].parent && a == s0[x].previous_sibling && b == s0[x].next_sibling,
@@ -2464,6 +2519,7 @@ pub open spec fn live_count<T>(s: Seq<Node<T>>) -> nat
 }
 
 pub proof fn lemma_live_count_same<T>(o: Seq<Node<T>>, n: Seq<Node<T>>)
+    // @props C02
     requires
         n.len() == o.len(),
         forall|i: int| 0 <= i < o.len() ==> (#[trigger] n[i]).stamp == o[i].stamp,
@@ -2483,6 +2539,7 @@ pub proof fn lemma_live_count_same<T>(o: Seq<Node<T>>, n: Seq<Node<T>>)
 }
 
 pub proof fn lemma_live_count_free<T>(o: Seq<Node<T>>, n: Seq<Node<T>>, x: int)
+    // @props C02
     requires
         n.len() == o.len(),
         0 <= x < o.len(),
@@ -2513,6 +2570,7 @@ pub proof fn lemma_live_count_free<T>(o: Seq<Node<T>>, n: Seq<Node<T>>, x: int)
 
 /// in_sub is insensitive to a change of the parent link of a node z that is not on the path from y
 pub proof fn lemma_in_sub_frame2<T>(o: Seq<Node<T>>, n: Seq<Node<T>>, w: Ranks, r: int, y: int, z: int)
+    // @props C02 C04
     requires
         n.len() == o.len(),
         forall|i: int| 0 <= i < o.len() && i != z ==> (#[trigger] n[i]).parent == o[i].parent,
@@ -2527,6 +2585,7 @@ pub proof fn lemma_in_sub_frame2<T>(o: Seq<Node<T>>, n: Seq<Node<T>>, w: Ranks, 
 }
 
 pub proof fn lemma_id_eq_from_live<T>(s: Seq<Node<T>>, id: NodeId)
+    // @props C05
     requires
         tgt_ok(s, Some(id)),
     ensures
@@ -2535,6 +2594,7 @@ pub proof fn lemma_id_eq_from_live<T>(s: Seq<Node<T>>, id: NodeId)
 }
 
 pub proof fn lemma_parent_has_both_none<T>(s: Seq<Node<T>>, i: int)
+    // @props C01
     requires
         links_ok(s),
         0 <= i < s.len(),
@@ -2547,6 +2607,7 @@ pub proof fn lemma_parent_has_both_none<T>(s: Seq<Node<T>>, i: int)
 
 /// descending to the first child stays inside the subtree of r
 pub proof fn lemma_first_child_in_sub<T>(s: Seq<Node<T>>, w: Ranks, r: int, id: NodeId)
+    // @props C04 C02
     requires
         links_ok(s),
         ranked(s, w),
@@ -2569,6 +2630,7 @@ pub proof fn lemma_first_child_in_sub<T>(s: Seq<Node<T>>, w: Ranks, r: int, id: 
 /// after the leaf `id` of the subtree of r has been detached and freed, its former parent is
 /// still inside the subtree, and r itself is untouched unless it was the leaf
 pub proof fn lemma_leaf_removed_frame<T>(s0: Seq<Node<T>>, s1: Seq<Node<T>>, s2: Seq<Node<T>>, w: Ranks, r: int, id: NodeId)
+    // @props C04 C02
     requires
         links_ok(s0),
         ranked(s0, w),
@@ -2651,6 +2713,7 @@ pub open spec fn deq<T>(s: Seq<Node<T>>, head: Option<NodeId>, tail: Option<Node
 }
 
 pub proof fn lemma_walk<T>(s: Seq<Node<T>>, w: Ranks, id: NodeId, by_next: bool)
+    // @props C09 C10
     requires
         links_ok(s),
         ranked(s, w),
@@ -2720,6 +2783,7 @@ pub proof fn lemma_walk<T>(s: Seq<Node<T>>, w: Ranks, id: NodeId, by_next: bool)
 
 /// popping either end of the ghost deque
 pub proof fn lemma_deq_pop<T>(s: Seq<Node<T>>, d: Seq<NodeId>, by_next: bool)
+    // @props C10
     requires
         run_ok(s, d, by_next),
         d.len() > 0,
@@ -2764,6 +2828,7 @@ pub proof fn lemma_deq_pop<T>(s: Seq<Node<T>>, d: Seq<NodeId>, by_next: bool)
 }
 
 pub proof fn lemma_walk_indep<T>(s: Seq<Node<T>>, w1: Ranks, w2: Ranks, id: NodeId, by_next: bool)
+    // @props C09
     requires
         links_ok(s),
         ranked(s, w1),
@@ -2789,6 +2854,7 @@ pub proof fn lemma_walk_indep<T>(s: Seq<Node<T>>, w1: Ranks, w2: Ranks, id: Node
 
 /// the far end of the walk from x is what x's parent names as its last (first) child
 pub proof fn lemma_walk_end<T>(s: Seq<Node<T>>, w: Ranks, id: NodeId, by_next: bool)
+    // @props C09 C10
     requires
         links_ok(s),
         ranked(s, w),
@@ -2835,6 +2901,7 @@ pub open spec fn children_seq<T>(s: Seq<Node<T>>, w: Ranks, p: int) -> Seq<NodeI
 }
 
 pub proof fn lemma_children_deq<T>(s: Seq<Node<T>>, w: Ranks, p: int)
+    // @props C09 C10
     requires
         links_ok(s),
         ranked(s, w),
@@ -2897,6 +2964,7 @@ pub open spec fn prev_edge<T>(s: Seq<Node<T>>, e: NodeEdge) -> Option<NodeEdge> 
 
 /// C09: the two steps are inverses of each other on a well-formed forest
 pub proof fn lemma_edge_inverse<T>(s: Seq<Node<T>>, e: NodeEdge)
+    // @props C09
     requires
         links_ok(s),
         tgt_ok(s, Some(edge_node(e))),
@@ -2974,6 +3042,7 @@ pub open spec fn first_start<T>(s: Seq<Node<T>>, w: Ranks, root: NodeId, e: Opti
 }
 
 pub proof fn lemma_desc_step<T>(s: Seq<Node<T>>, w: Ranks, root: NodeId, e: NodeEdge)
+    // @props C09 C02
     requires
         links_ok(s),
         ranked(s, w),
